@@ -17,7 +17,7 @@ for f in sorted(glob.glob(V + "/seeded/*/meta.json") + glob.glob(V + "/selfseede
     line = (r.stdout.strip().splitlines() or ["?"])[0]
     status = line.split()[1] if len(line.split()) > 1 else "?"
     flag = ""
-    if "DETECTED" in expected and status != "DETECTED":
+    if expected in ("DETECTED", "MISSED then DETECTED") and status != "DETECTED":
         flag = "  <-- REGRESSION"
         bad += 1
     print("%-8s %-4s recorded=%-22s now=%s%s" % (m["id"], prop, expected, status, flag), flush=True)
